@@ -1,0 +1,59 @@
+//! Verification hooks (cargo feature `verif`, off by default).
+//!
+//! Public wrappers around items that are private to `server` (`tako_events`, `restore`), so
+//! that an external model-checking harness can assemble the server the way `bootstrap.rs`
+//! does and can run the real journal restore. No behaviour is added: every function here
+//! forwards to the shipped one.
+
+use crate::server::Senders;
+use crate::server::restore::StateRestorer;
+use crate::server::state::{State, StateRef};
+use crate::server::tako_events::UpstreamEventProcessor;
+use std::path::Path;
+use tako::control::ServerRef;
+use tako::events::EventProcessor;
+use tako::gateway::TaskSubmit;
+use tako::WorkerId;
+
+pub use crate::server::restore::Queue as RestoredQueue;
+
+/// `UpstreamEventProcessor::new`, boxed the way `initialize_server` hands it to tako.
+pub fn upstream_event_processor(state_ref: StateRef, senders: Senders) -> Box<dyn EventProcessor> {
+    Box::new(UpstreamEventProcessor::new(state_ref, senders))
+}
+
+/// The private `StateRestorer`, verbatim.
+#[derive(Default)]
+pub struct Restorer(StateRestorer);
+
+impl Restorer {
+    pub fn load_event_file(&mut self, path: &Path) -> crate::Result<()> {
+        self.0.load_event_file(path)
+    }
+    pub fn job_id_counter(&self) -> u32 {
+        self.0.job_id_counter()
+    }
+    pub fn worker_id_counter(&self) -> WorkerId {
+        self.0.worker_id_counter()
+    }
+    pub fn queue_id_counter(&self) -> u32 {
+        self.0.queue_id_counter()
+    }
+    pub fn truncate_size(&self) -> Option<u64> {
+        self.0.truncate_size()
+    }
+    pub fn take_server_uid(&mut self) -> String {
+        self.0.take_server_uid()
+    }
+    /// `State::restore_state` (sets the job id counter), as `start_server` calls it.
+    pub fn restore_state(&self, state: &mut State) {
+        state.restore_state(&self.0)
+    }
+    pub fn restore_jobs_and_queues(
+        self,
+        state: &mut State,
+        server_ref: &ServerRef,
+    ) -> crate::Result<(Vec<TaskSubmit>, Vec<RestoredQueue>)> {
+        self.0.restore_jobs_and_queues(state, server_ref)
+    }
+}
